@@ -128,8 +128,11 @@ SBEPPC_VARIANTS = {
     # the binary users run: the repo's own flags
     "rel": ["g++", "-std=c++17", "-O2", "-DNDEBUG"],
     # asserts alive, libstdc++ assertions, ASan+UBSan (recoverable UBSan so one report does not mask the rest)
+    # fmt is compiled into the binary (FMT_HEADER_ONLY), so that reads made by the formatting code -- e.g. of a dangling
+    # string_view argument -- are instrumented too; with the shared libfmt they happen in uninstrumented code and ASan
+    # stays silent (found with seeded change C09-4)
     "san": ["g++", "-std=c++17", "-O0", "-g1", "-fno-omit-frame-pointer",
-            "-fsanitize=address,undefined", "-D_GLIBCXX_ASSERTIONS"],
+            "-fsanitize=address,undefined", "-D_GLIBCXX_ASSERTIONS", "-DFMT_HEADER_ONLY=1"],
     # line-coverage build used by tools/coverage_sbeppc.sh only (VERIF_SBEPPC_OVERRIDE=cov): which generator and
     # validator lines did the workloads of the checks actually execute?  Never used for a verdict.
     "cov": ["g++", "-std=c++17", "-O0", "-g1", "--coverage", "-fprofile-update=atomic"],
@@ -153,7 +156,7 @@ def sbeppc(variant="rel", main_src=None):
     d = tree_dir()
     if not main_src:
         variant = os.environ.get("VERIF_SBEPPC_OVERRIDE", variant)
-    out = os.path.join(d, "sbeppc-" + variant)
+    out = os.path.join(d, "sbeppc-%s-%s" % (variant, C.sha(" ".join(SBEPPC_VARIANTS[variant]))[:8]))
     if main_src:
         # a wrapper around main.cpp that lives in rt/: the artefact also depends on its text
         out += "-" + C.sha(open(main_src, "rb").read())[:10]
@@ -164,9 +167,10 @@ def sbeppc(variant="rel", main_src=None):
             return out
         flags = SBEPPC_VARIANTS[variant]
         src = main_src or os.path.join(sbeppc_src(), "sbepp", "sbeppc", "main.cpp")
-        cmd = flags + ["-DFMT_SHARED", "-I" + sbeppc_src(), "-I" + sbepp_inc(),
+        header_only = any(f.startswith("-DFMT_HEADER_ONLY") for f in flags)
+        cmd = flags + ([] if header_only else ["-DFMT_SHARED"]) + ["-I" + sbeppc_src(), "-I" + sbepp_inc(),
                        "-isystem", C.FMT_INC, src, _build_info_cpp(d),
-                       "-o", out + ".tmp", "-L" + C.FMT_LIBDIR, "-lfmt", "-lpugixml",
+                       "-o", out + ".tmp", "-L" + C.FMT_LIBDIR] + ([] if header_only else ["-lfmt"]) + ["-lpugixml",
                        "-Wl,-rpath," + C.FMT_LIBDIR]
         t = C.Timer()
         rc, o, _, to = C.run(cmd, timeout=1800)
